@@ -130,7 +130,13 @@ def invoke(spec, scratch):
 		root = work / 'schemas'
 		copy_tree_in_order(schema_paths(net)[1], root, spec['schema_copy'])
 	schema, include = schema_paths(net, root)
-	cwd = {'root': Path('/'), 'repo': REPO, 'scratch': Path(scratch), 'parent': work}[spec['cwd']]
+	other_net = [other for other in NETWORKS if other != net][0]
+	cwd = {
+		'root': Path('/'), 'repo': REPO, 'scratch': Path(scratch), 'parent': work,
+		# directories that hold files with the same relative names as the schema's imports, or the generator's own packages
+		'schemas-own': Path(schema_paths(net)[1]), 'schemas-other': Path(schema_paths(other_net)[1]),
+		'sdk': REPO / 'sdk' / 'python', 'parser': REPO / 'catbuffer' / 'parser', 'generator': REPO / 'sdk' / 'python' / 'generator',
+	}[spec['cwd']]
 	if spec.get('leftover'):
 		output.mkdir(exist_ok=True)
 		(output / '__init__.py').write_bytes(leftover_bytes(spec['leftover'], net))
@@ -225,6 +231,11 @@ def matrix(check):
 			specs.append({
 				'kind': 'cli', 'net': net, 'seed': seeds[-1], 'cwd': 'scratch', 'relative': False, 'prepopulated': False, 'schema_copy': order,
 				'id': f'{net}-copy-{order.replace(":", "-")}'})
+		for cwd in ('schemas-own', 'schemas-other', 'sdk', 'parser', 'generator'):
+			for relative in (False, True):
+				specs.append({
+					'kind': 'cli', 'net': net, 'seed': seeds[0], 'cwd': cwd, 'relative': relative, 'prepopulated': False,
+					'id': f'{net}-cwd-{cwd}-{"rel" if relative else "abs"}'})
 		for index, leftover in enumerate(LEFTOVERS):
 			specs.append({
 				'kind': 'cli', 'net': net, 'seed': seeds[index % len(seeds)], 'cwd': 'scratch', 'relative': False, 'prepopulated': True, 'leftover': leftover,
